@@ -18,10 +18,16 @@ def impl_all(v, t):
     tf = np.arange(len(t)) * 10.0
     b, bf = m.boundary_tria(tf)
     bt0 = np.array(b.t, dtype=np.int64); same_v = np.array_equal(b.v, m.v)
+    # per-tetrahedron functions of other shapes / types are handed over by the same owner: one row per tetrahedron, integer labels
+    multi = []
+    for f2 in (np.column_stack([tf, tf + 1.0, -tf]), tf.reshape(-1, 1), (np.arange(len(t)) * 3 + 1).astype(np.int64)):
+        b2, bf2 = m.boundary_tria(f2)
+        own = (bf / 10.0).astype(np.int64)
+        multi.append(np.array_equal(np.array(b2.t), np.array(b.t)) and np.shape(bf2) == np.shape(f2[own]) and np.array_equal(np.asarray(bf2), f2[own]))
     n = m.orient_()
     t1 = np.array(m.t, dtype=np.int64)
     o1 = bool(m.is_oriented())
-    return o0, bt0, (bf / 10.0).astype(np.int64), same_v, int(n), t1, o1, bool(m.has_free_vertices())
+    return o0, bt0, (bf / 10.0).astype(np.int64), same_v and all(multi), int(n), t1, o1, bool(m.has_free_vertices())
 
 
 class Check(BaseCheck):
